@@ -2,11 +2,14 @@
 
 from __future__ import annotations
 
+import re
 from sys import maxsize
 from typing import TYPE_CHECKING
 
 if TYPE_CHECKING:
     from collections.abc import Collection
+
+_re_line_terminator = re.compile(r"\r\n|[\n\r]")
 
 __all__ = [
     "dedent_block_string_lines",
@@ -121,7 +124,7 @@ def print_block_string(value: str, minimize: bool = False) -> str:
     escaped_value = value.replace('"""', '\\"""')
 
     # Expand a block string's raw value into independent lines.
-    lines = escaped_value.splitlines() or [""]
+    lines = _re_line_terminator.split(escaped_value)
     num_lines = len(lines)
     is_single_line = num_lines == 1
 
